@@ -30,6 +30,8 @@ def modifiers():
     for ref in (None, 'innermost-pkt', 'current-offset'):
         out.append(('aligned', C(2), 'const', ref))
         out.append(('aligned', C(4), 'const', ref))
+        out.append(('aligned', C(3), 'const', ref))
+        out.append(('aligned', C(6), 'const', ref))
         out.append(('aligned', F('k'), 'field', ref))
         out.append(('aligned', BIN('add', F('k'), C(1)), 'lambda', ref))
     return out
@@ -62,7 +64,7 @@ def decl_specs(tier):
                     P = K
                 specs.append({'P': P, 'tag': '%s.%s(%s,%s) wrapper=%s' % (ename, m, sp, ref, w), 'sig': '%s %s ref=%s target=%s' % (m, ename, ref, sp)})
     # class-wide align and per-element alignment
-    for al in (2, 4):
+    for al in (2, 3, 4, 6):
         for names in (['i1', 'i1'], ['i1', 'dn'], ['i1', 'sn'], ['i1', 'sr'], ['dn', 'r1'], ['i1', 'em'], ['m0', 'i2'], ['i1', 'o1'], ['i1', 'su'], ['i1', 'rs']):
             for w in 'abc':
                 specs.append({'names': names, 'wrapper': w, 'opts': {'align': al}, 'tag': 'class-align %d %s %s' % (al, names, w), 'sig': 'class align'})
